@@ -41,7 +41,7 @@ func genDUID(t *rapid.T, i int) string {
 }
 
 func genHint(t *rapid.T, mode string, renewBias bool) Hint {
-	kinds := []string{"len0", "lenonly", "free", "free", "self", "other", "blk", "blk", "outpool", "toolong", "len0addr"}
+	kinds := []string{"len0", "lenonly", "free", "free", "self", "other", "blk", "blk", "outpool", "toolong", "len0addr", "after", "before"}
 	if renewBias {
 		kinds = []string{"self", "self", "self", "len0", "free", "blk"}
 	}
@@ -62,7 +62,7 @@ func genHint(t *rapid.T, mode string, renewBias bool) Hint {
 		if rapid.IntRange(0, 4).Draw(t, "hint-inner?") == 0 {
 			h.Inner = rapid.Uint64().Draw(t, "hint-inner")
 		}
-	case "self", "other", "len0addr", "toolong":
+	case "self", "other", "len0addr", "toolong", "after", "before":
 		h.K = rapid.Uint64Range(0, 8).Draw(t, "hint-k")
 	case "outpool":
 		h.Inner = rapid.Uint64Range(0, 4).Draw(t, "hint-inner")
